@@ -366,33 +366,32 @@ Unlock == /\ locked # {} /\ locked' = {}
 (* Next-state relation over a finite alphabet of arguments (used by the    *)
 (* exhaustive configurations and by the simulation that generates          *)
 (* histories for replay on the real library).                              *)
+(* (every disjunct is a separate action for TLC: its simulator picks an action first, then one of its successors) *)
+NL == UNCHANGED locked
 NextWithLocks(Batches, DelSets, HasSets, ImpSets, Src, PackModes, RepackModes, WithLocks) ==
-    \/ /\ UNCHANGED locked
-       /\ \E h \in Handles :
-        \/ \E k \in Keys : AddLoose(h, k)
-        \/ \E ks \in Batches, z \in BOOLEAN, nh \in BOOLEAN, tw \in BOOLEAN :
-              (nh \/ tw) /\ ~Blocked(h) /\ AddToPack(h, ks, z, nh, tw)
-        \/ \E mode \in PackModes, pp \in BOOLEAN :
-              \E order \in SetToSeqs(LoosePresent \ KeysOf(V(h))) : (order = <<>> \/ ~Blocked(h)) /\ PackAllLoose(h, mode, pp, order)
-        \/ Clean(h)
-        \/ \E S \in DelSets : Delete(h, S)
-        \/ \E mode \in RepackModes : Repack(h, mode)
-        \/ \E S \in HasSets : Has(h, S)
-        \/ List(h)
-        \/ ListPart(h)
-        \/ \E k \in Keys : Loosen(h, k)
-        \/ \E S \in ImpSets, z \in BOOLEAN, sh \in BOOLEAN :
-              \E order \in SetToSeqs(ImportFresh(h, S, sh, Src)) :
-                  (order = <<>> \/ ~Blocked(h)) /\ Import(h, S, z, sh, order, Src)
-        \/ Reopen(h)
-        \/ InitAgain(h)
-    \/ /\ WithLocks
-       /\ \/ LockStale
-          \/ Unlock
-          \/ \E h \in Handles :
-                \/ \E ks \in Batches, z \in BOOLEAN, nh \in BOOLEAN, tw \in BOOLEAN : (nh \/ tw) /\ AddToPackRefused(h, ks, z, nh, tw)
-                \/ \E mode \in PackModes, pp \in BOOLEAN : PackRefused(h, mode, pp)
-                \/ \E S \in ImpSets, z \in BOOLEAN, sh \in BOOLEAN : ImportRefused(h, S, z, sh, Src)
+    \/ \E h \in Handles, k \in Keys : AddLoose(h, k) /\ NL
+    \/ \E h \in Handles, ks \in Batches, z \in BOOLEAN, nh \in BOOLEAN, tw \in BOOLEAN :
+          (nh \/ tw) /\ ~Blocked(h) /\ AddToPack(h, ks, z, nh, tw) /\ NL
+    \/ \E h \in Handles, mode \in PackModes, pp \in BOOLEAN :
+          \E order \in SetToSeqs(LoosePresent \ KeysOf(V(h))) : (order = <<>> \/ ~Blocked(h)) /\ PackAllLoose(h, mode, pp, order) /\ NL
+    \/ \E h \in Handles : Clean(h) /\ NL
+    \/ \E h \in Handles, S \in DelSets : Delete(h, S) /\ NL
+    \/ \E h \in Handles, mode \in RepackModes : Repack(h, mode) /\ NL
+    \/ \E h \in Handles, S \in HasSets : Has(h, S) /\ NL
+    \/ \E h \in Handles : List(h) /\ NL
+    \/ \E h \in Handles : ListPart(h) /\ NL
+    \/ \E h \in Handles, k \in Keys : Loosen(h, k) /\ NL
+    \/ \E h \in Handles, S \in ImpSets, z \in BOOLEAN, sh \in BOOLEAN :
+          \E order \in SetToSeqs(ImportFresh(h, S, sh, Src)) :
+              (order = <<>> \/ ~Blocked(h)) /\ Import(h, S, z, sh, order, Src) /\ NL
+    \/ \E h \in Handles : Reopen(h) /\ NL
+    \/ \E h \in Handles : InitAgain(h) /\ NL
+    \/ WithLocks /\ LockStale
+    \/ WithLocks /\ Unlock
+    \/ \E h \in Handles, ks \in Batches, z \in BOOLEAN, nh \in BOOLEAN, tw \in BOOLEAN :
+          WithLocks /\ (nh \/ tw) /\ AddToPackRefused(h, ks, z, nh, tw)
+    \/ \E h \in Handles, mode \in PackModes, pp \in BOOLEAN : WithLocks /\ PackRefused(h, mode, pp)
+    \/ \E h \in Handles, S \in ImpSets, z \in BOOLEAN, sh \in BOOLEAN : WithLocks /\ ImportRefused(h, S, z, sh, Src)
 NextWith(Batches, DelSets, HasSets, ImpSets, Src, PackModes, RepackModes) ==
     NextWithLocks(Batches, DelSets, HasSets, ImpSets, Src, PackModes, RepackModes, FALSE)
 
